@@ -221,7 +221,7 @@ def generate(rng, tier):
     else:
         for t in rng.sample(small, 150):
             cases.append(_mk(rng, t, rng.choice(BACKENDS), rng.choice(ALGOS), 'exhaustive'))
-        n_rand, n_hist = 500, 140
+        n_rand, n_hist = 330, 100
     # the history stream: labels -> remove -> (labels) -> add back -> labels -> rebuild
     shapes = list(base.NONGRADED) + [(t, k) for t, k in base.forced_tables() if k in ('duprow', 'dupcol', 'contranominal')]
     for t, kind in shapes:
